@@ -6,13 +6,6 @@ Import ListNotations.
 Ltac norm_app := cbn [app]; repeat (rewrite <- app_assoc; cbn [app]).
 
 (* --------------------------------------------- printer pieces as functions *)
-Fixpoint raw_args (l : list exp) : list token :=
-  match l with
-  | [] => []
-  | [a] => raw a
-  | a :: rest => raw a ++ TComma :: raw_args rest
-  end.
-
 Definition raw_field (f : field) : list token :=
   match f with
   | (FPos, _, v, _) => raw v
